@@ -285,6 +285,8 @@ var sharedParamPool = []map[string]string{
 	{"p1": "{p1: Int32}", "lim": "{lim: UInt8}"},
 	{"p1": "$1", "k": "$2", "n": "{n: Int64}"},
 	{"lim": "5"},
+	// names no identifier can spell: never referenced, must be harmless
+	{"lim": "$1", "p1": "$2", "user id": "$3", "2fa": "$4", "": "$5", "a-b": "$6"},
 }
 
 func TestC14Histories(t *testing.T) {
@@ -295,11 +297,20 @@ func TestC14Histories(t *testing.T) {
 		h := &history{Shared: rapid.SampledFrom(sharedParamPool).Draw(rt, "shared"), Goroutines: rapid.IntRange(2, 16).Draw(rt, "goroutines")}
 		var names []string
 		for n := range h.Shared {
-			names = append(names, n)
+			if n == "p1" || n == "lim" || n == "k" || n == "n" {
+				names = append(names, n)
+			}
 		}
 		sort.Strings(names)
-		// a pool of sources: lets that shadow shared parameters, built-ins, errors
+		// a pool of sources: lets that shadow shared parameters, built-ins, errors.
+		// One binding name is fresh per history: a call that uses it as a column
+		// name must not see the value another call's let gave it, however many
+		// histories this process has run before.
+		fresh := "w" + rapid.StringMatching(`[a-z]{4,8}`).Draw(rt, "freshname")
 		var pool []string
+		pool = append(pool,
+			fmt.Sprintf("let %s = %d; T | where a > %s | take 3", fresh, rapid.IntRange(1, 9).Draw(rt, "freshval"), fresh),
+			fmt.Sprintf("T | where %s > 3 | project %s, b | take lim", fresh, fresh))
 		for i, n := 0, rapid.IntRange(2, 6).Draw(rt, "npool"); i < n; i++ {
 			switch rapid.IntRange(0, 8).Draw(rt, "srckind") {
 			case 7, 8:
